@@ -299,8 +299,8 @@ func runC06(ctx *Ctx) {
 func runC07(ctx *Ctx) {
 	pc := newPipeCorr()
 	defer pc.run(ctx)
-	corrDF := newCorr("docfilters")
-	defer corrDF.run(ctx)
+	on := newCorr("outputnodes")
+	defer on.run(ctx)
 	tr, do := newCorr("textrender"), newCorr("docoutput")
 	defer tr.run(ctx)
 	defer do.run(ctx)
@@ -309,6 +309,7 @@ func runC07(ctx *Ctx) {
 		corr: func(ctx *Ctx, x *distilled, replay interface{}) {
 			pc.add(ctx, x.D, x.Root, true, replay)
 			addRenderCases(tr, do, ctx.Rep, x.Src, pageURL, replay, 6)
+			addOutputNodesCase(on, x.Src, replay)
 		},
 		weights: []W{{"para", 25}, {"shortpara", 8}, {"list", 25}, {"quote", 15}, {"pre", 6}, {"datatable", 6}, {"img", 4}, {"figure", 3}, {"links", 6}, {"divwrap", 6}, {"embed", 3}, {"heading", 3}},
 		oracle: func(ctx *Ctx, x *distilled, replay interface{}) bool {
